@@ -42,7 +42,7 @@ def _round_exp(x):
     return float(f"{float(x):.14g}")
 
 
-def canonicalise(ob):
+def canonicalise(ob, rational=False):
     old = ob["nodes"]
     new, index, used = [], {}, set()
 
@@ -138,6 +138,13 @@ def canonicalise(ob):
             acc = t if acc is None else mk(["add", acc, t])
         return acc
 
+    def nonneg_atom(at):
+        """pow / abs / sqrt / exp results, and input variables whose stated range starts at or above 0."""
+        n = new[at]
+        if n[0] in ("pow", "abs", "sqrt", "exp"):
+            return True
+        return n[0] == "var" and float(ob["vars"][int(n[1])]["lo"]) >= 0.0
+
     def atom_poly(node_id):
         return p_atom(node_id)
 
@@ -149,16 +156,107 @@ def canonicalise(ob):
         g = abs(c)
         return g, p_scale(p, 1 / g)
 
-    form = {}   # old id -> ("p", poly) | ("b", new bool node id)
+
+    ONE = {(): Fraction(1)}
+
+    def qkey(p):
+        return tuple(sorted((m, _round12(c)) for m, c in p.items()))
+
+    def q_norm(P, Q):
+        """(P, Q) -> canonical pair: atom powers common to every monomial of P and Q cancelled (valid where those atoms are
+        non-zero), Q monic. Q constant -> (P / Q, ONE)."""
+        if not P:
+            return {}, dict(ONE)
+        if not Q:
+            return None
+        if not is_const(Q):
+            common = None
+            for m in list(P) + list(Q):
+                dm = dict(m)
+                if common is None:
+                    common = dict(dm)
+                else:
+                    common = {at: min(e, dm.get(at, 0)) for at, e in common.items()}
+                    common = {at: e for at, e in common.items() if e > 0}
+                if not common:
+                    break
+            if common:
+                used.add("rational functions: atom powers common to numerator and denominator cancelled (valid where they are non-zero)")
+                strip = lambda m: tuple(sorted((at, e - common.get(at, 0)) for at, e in m if e - common.get(at, 0) > 0))
+                P = {strip(m): c for m, c in P.items()}
+                Q = {strip(m): c for m, c in Q.items()}
+        if is_const(Q):
+            return p_scale(P, 1 / cval(Q)), dict(ONE)
+        _, g = lead(Q)
+        return p_scale(P, 1 / g), p_scale(Q, 1 / g)
+
+    def q_add(a, b, sign=1):
+        (P1, Q1), (P2, Q2) = a, b
+        if qkey(Q1) == qkey(Q2):
+            return q_norm(p_add(P1, P2, sign), Q1)
+        n1, n2, d = p_mul(P1, Q2), p_mul(P2, Q1), p_mul(Q1, Q2)
+        if n1 is None or n2 is None or d is None:
+            return None
+        return q_norm(p_add(n1, n2, sign), d)
+
+    def q_mul(a, b):
+        (P1, Q1), (P2, Q2) = a, b
+        n, d = p_mul(P1, P2), p_mul(Q1, Q2)
+        if n is None or d is None:
+            return None
+        return q_norm(n, d)
+
+    def q_div(a, b):
+        (P1, Q1), (P2, Q2) = a, b
+        if not P2:
+            return None
+        n, d = p_mul(P1, Q2), p_mul(Q1, P2)
+        if n is None or d is None:
+            return None
+        return q_norm(n, d)
+
+    def q_mat(P, Q):
+        """Write a rational function back: (leading coefficient of P) * (P / lead) / Q, one deterministic shape."""
+        if is_const(Q):
+            return mat(p_scale(P, 1 / cval(Q)))
+        if not P:
+            return const_node(0.0)
+        _, ga = lead(P)
+        d = mk(["div", mat(p_scale(P, 1 / ga)), mat(Q)])
+        g = _round12(ga)
+        return d if g == 1.0 else mk(["mul", const_node(g), d])
+
+    form = {}   # old id -> ("p", poly) | ("q", (P, Q)) rational function (only with rational=True) | ("b", new bool node id)
 
     def poly_of(i):
         k, v = form[i]
+        if k == "q":   # a rational function used where a polynomial is expected: it becomes one atom (times its leading coefficient)
+            P, Q = v
+            _, ga = lead(P)
+            return p_scale(atom_poly(mk(["div", mat(p_scale(P, 1 / ga)), mat(Q)])), ga)
         assert k == "p", (i, old[i])
         return v
 
+    def rat_of(i):
+        k, v = form[i]
+        return v if k == "q" else (v, dict(ONE))
+
+    def is_q(*ids):
+        return rational and any(form[j][0] == "q" for j in ids)
+
+    def set_q(i, r, fallback):
+        """Store a rational result (or the fallback polynomial when the expansion was too large)."""
+        if r is None:
+            form[i] = ("p", fallback())
+        elif is_const(r[1]):
+            form[i] = ("p", p_scale(r[0], 1 / cval(r[1])))
+        else:
+            used.add("nested quotients flattened into one rational function (numerator / monic denominator)")
+            form[i] = ("q", r)
+
     def node_of(i):
         k, v = form[i]
-        return mat(v) if k == "p" else v
+        return mat(v) if k == "p" else q_mat(*v) if k == "q" else v
 
     for i, n in enumerate(old):
         op = n[0]
@@ -168,10 +266,20 @@ def canonicalise(ob):
             form[i] = ("p", p_const(Fraction(_f(n[1]))))
         elif op == "bconst":
             form[i] = ("b", mk(n))
+        elif op in ("add", "sub") and is_q(n[1], n[2]):
+            sg = 1 if op == "add" else -1
+            set_q(i, q_add(rat_of(n[1]), rat_of(n[2]), sg), lambda: p_add(poly_of(n[1]), poly_of(n[2]), sg))
         elif op in ("add", "sub"):
             form[i] = ("p", p_add(poly_of(n[1]), poly_of(n[2]), 1 if op == "add" else -1))
+        elif op == "neg" and is_q(n[1]):
+            P, Q = rat_of(n[1])
+            form[i] = ("q", (p_scale(P, -1), Q))
         elif op == "neg":
             form[i] = ("p", p_scale(poly_of(n[1]), -1))
+        elif op == "mul" and is_q(n[1], n[2]):
+            set_q(i, q_mul(rat_of(n[1]), rat_of(n[2])), lambda: atom_poly(mk(["mul", node_of(n[1]), node_of(n[2])])))
+        elif op == "div" and rational and (form[n[1]][0] == "q" or form[n[2]][0] == "q" or not is_const(poly_of(n[2]))) and rat_of(n[2])[0]:
+            set_q(i, q_div(rat_of(n[1]), rat_of(n[2])), lambda: atom_poly(mk(["div", node_of(n[1]), node_of(n[2])])))
         elif op == "mul":
             r = p_mul(poly_of(n[1]), poly_of(n[2]))
             if r is None:
@@ -220,6 +328,21 @@ def canonicalise(ob):
                 form[i] = ("p", r if r is not None else atom_poly(mk(["powi", mat(a), e])))
             else:
                 form[i] = ("p", atom_poly(mk(["powi", mat(a), e])))
+        elif op in ("abs", "signum") and is_q(n[1]):
+            P, Q = rat_of(n[1])
+            _, ga = lead(P)
+            g = abs(ga)
+            used.add("positive constant factors moved out of abs / signum / sqrt / pow")
+            inner = atom_poly(mk([op, q_mat(p_scale(P, 1 / g), Q)]))
+            form[i] = ("p", p_scale(inner, g) if op == "abs" else inner)
+        elif op == "pow" and is_q(n[1]) and is_const(poly_of(n[2])):
+            P, Q = rat_of(n[1])
+            ev = float(cval(poly_of(n[2])))
+            _, ga = lead(P)
+            g = abs(ga)
+            used.add("positive constant factors moved out of abs / signum / sqrt / pow")
+            inner = atom_poly(mk(["pow", q_mat(p_scale(P, 1 / g), Q), const_node(_round_exp(ev))]))
+            form[i] = ("p", p_scale(inner, Fraction(float(g) ** ev)))
         elif op in ("abs", "signum", "sqrt"):
             a = poly_of(n[1])
             if is_const(a):
@@ -231,8 +354,8 @@ def canonicalise(ob):
             used.add("positive constant factors moved out of abs / signum / sqrt / pow")
             if op == "sqrt" and len(q) == 1:
                 (qm, qc), = q.items()
-                if qc > 0 and qm and all(e % 2 == 0 and new[at][0] in ("pow", "abs", "sqrt", "exp") for at, e in qm):
-                    used.add("sqrt of an even power of non-negative atoms (pow, abs, sqrt, exp results) taken exactly")
+                if qc > 0 and qm and all(e % 2 == 0 and nonneg_atom(at) for at, e in qm):
+                    used.add("sqrt of an even power of non-negative atoms (pow, abs, sqrt, exp results, variables with a non-negative range) taken exactly")
                     form[i] = ("p", {tuple((at, e // 2) for at, e in qm): Fraction(float(g * qc) ** 0.5)})
                     continue
             inner = atom_poly(mk([op, mat(q)]))
